@@ -329,6 +329,16 @@ def check_case(case):
         if expected is not None and got == expected and pw == len(expected) and not strided_parent(parent):
             # rejected (or accepted) trial indices on the same parent, tried first, must leave no trace
             probes = [["slice", parent, w + 3], ["slice", parent, [w + 1, w + 1, None]], ["slice", parent, -(w + 2)], ["slice", parent, 0], ["badcat", parent]]
+            if not isinstance(idx, int):
+                # ... and neighbouring spellings of the index itself (an omitted bound written out or the other way round, a zero
+                # step), most of which select something else or nothing: whatever they give, the index proper means what it means
+                a_, b_, c_ = idx
+                order = lambda vs: sorted(vs, key=lambda v: (v is None, v or 0))  # noqa: E731
+                for a2 in order({a_, None if a_ == 0 else a_, 0 if a_ is None else a_}):
+                    for b2 in order({b_, None if b_ in (w, 0) else b_, w if b_ is None else b_}):
+                        for c2 in order({c_, None if c_ == 1 else c_, 1 if c_ is None else c_, 0}):
+                            if [a2, b2, c2] != [a_, b_, c_]:
+                                probes.append(["slice", parent, [a2, b2, c2]])
             try:
                 gotp = export_bits(widths, expr, pw, probes=probes)
                 if gotp != expected:
